@@ -50,14 +50,12 @@ mod v_socket_icmp {
         [pat(tag, 0), pat(tag, 1), pat(tag, 2), pat(tag, 3)]
     }
 
+    /// straight-line (no loop: keeps the unwind bound at what smoltcp's own loops need)
     fn copy_into(buf: &mut [u8], src: &[u8; BL]) {
-        let mut i = 0;
-        while i < BL {
-            if i < buf.len() {
-                buf[i] = src[i];
-            }
-            i += 1;
+        macro_rules! put {
+            ($($i:expr)*) => { $( if $i < buf.len() { buf[$i] = src[$i]; } )* };
         }
+        put!(0 1 2 3 4 5 6 7 8 9 10 11);
     }
 
     fn any_v4() -> Ipv4Address {
@@ -299,7 +297,7 @@ mod v_socket_icmp {
         a.octets() == [0, 0, 0, 0]
     }
 
-    // @harness props=C09 cfg=KI4 tier=q to=900 mem=8 unwind=13 opts=nomem covers=4 funcs=icmp::Socket::send_slice;icmp::Socket::send;icmp::Socket::send_with;icmp::Socket::dispatch;Icmpv4Repr::parse;PacketBuffer::enqueue;PacketBuffer::dequeue_with bounds=tx_metadata_slots_1..=2;_payload_ring_20_bytes;_pre-state_=_send,_dispatch_(each_may_be_a_no-op);_ICMPv4_messages_of_8+0..=4_bytes,_any_type/code/ident,_any_IPv4_destination;_one_interface_address
+    // @harness props=C09 cfg=KI4 tier=q to=900 mem=8 unwind=6 opts=nomem covers=4 funcs=icmp::Socket::send_slice;icmp::Socket::send;icmp::Socket::send_with;icmp::Socket::dispatch;Icmpv4Repr::parse;PacketBuffer::enqueue;PacketBuffer::dequeue_with bounds=tx_metadata_slots_1..=2;_payload_ring_20_bytes;_pre-state_=_send,_dispatch_(each_may_be_a_no-op);_ICMPv4_messages_of_8+0..=4_bytes,_any_type/code/ident,_any_IPv4_destination;_one_interface_address
     #[kani::proof]
     pub(crate) fn icmp_send() {
         tx_setup!(dev, iface, cx, s, g, hop);
@@ -330,7 +328,7 @@ mod v_socket_icmp {
         drain_tx(&mut s, cx, &g, hop);
     }
 
-    // @harness props=C09 cfg=KI4 tier=q to=900 mem=8 unwind=13 opts=nomem covers=3 funcs=icmp::Socket::send_with;icmp::Socket::send_slice;icmp::Socket::dispatch;PacketBuffer::enqueue_with_infallible;PacketBuffer::dequeue_with bounds=tx_metadata_slots_1..=2;_payload_ring_20_bytes;_pre-state_=_send_slice,_dispatch_(each_may_be_a_no-op);_max_size_0..=12,_written_message_8..=12_bytes_<=_max_size
+    // @harness props=C09 cfg=KI4 tier=q to=900 mem=8 unwind=6 opts=nomem covers=3 funcs=icmp::Socket::send_with;icmp::Socket::send_slice;icmp::Socket::dispatch;PacketBuffer::enqueue_with_infallible;PacketBuffer::dequeue_with bounds=tx_metadata_slots_1..=2;_payload_ring_20_bytes;_pre-state_=_send_slice,_dispatch_(each_may_be_a_no-op);_max_size_0..=12,_written_message_8..=12_bytes_<=_max_size
     #[kani::proof]
     pub(crate) fn icmp_send_with() {
         tx_setup!(dev, iface, cx, s, g, hop);
@@ -371,7 +369,7 @@ mod v_socket_icmp {
         drain_tx(&mut s, cx, &g, hop);
     }
 
-    // @harness props=C09 cfg=KI4 tier=q to=900 mem=8 unwind=13 opts=nomem covers=4 funcs=icmp::Socket::dispatch;icmp::Socket::send_slice;icmp::Socket::send_with;Icmpv4Repr::parse;PacketBuffer::dequeue_with bounds=tx_metadata_slots_1..=2;_payload_ring_20_bytes;_pre-state_=_send_slice,_send_with_(each_may_be_a_no-op);_emit_returns_Ok_or_Err;_ICMPv4_messages_8..=12_bytes,_any_type/code
+    // @harness props=C09 cfg=KI4 tier=q to=900 mem=8 unwind=6 opts=nomem covers=4 funcs=icmp::Socket::dispatch;icmp::Socket::send_slice;icmp::Socket::send_with;Icmpv4Repr::parse;PacketBuffer::dequeue_with bounds=tx_metadata_slots_1..=2;_payload_ring_20_bytes;_pre-state_=_send_slice,_send_with_(each_may_be_a_no-op);_emit_returns_Ok_or_Err;_ICMPv4_messages_8..=12_bytes,_any_type/code
     #[kani::proof]
     pub(crate) fn icmp_dispatch() {
         tx_setup!(dev, iface, cx, s, g, hop);
@@ -401,7 +399,7 @@ mod v_socket_icmp {
         drain_tx(&mut s, cx, &g, hop);
     }
 
-    // @harness props=C09,C13 cfg=KI4 tier=q to=900 mem=8 unwind=13 opts=nomem covers=3 funcs=icmp::Socket::poll_at;icmp::Socket::send_slice;icmp::Socket::send_with;icmp::Socket::dispatch bounds=tx_metadata_slots_1..=2;_payload_ring_20_bytes;_script_send_slice,_send_with,_dispatch,_send_slice,_dispatch,_dispatch_(each_may_be_a_no-op);_poll_at_probed_after_every_step
+    // @harness props=C09,C13 cfg=KI4 tier=q to=900 mem=8 unwind=6 opts=nomem covers=3 funcs=icmp::Socket::poll_at;icmp::Socket::send_slice;icmp::Socket::send_with;icmp::Socket::dispatch bounds=tx_metadata_slots_1..=2;_payload_ring_20_bytes;_script_send_slice,_send_with,_dispatch,_send_slice,_dispatch,_dispatch_(each_may_be_a_no-op);_poll_at_probed_after_every_step
     #[kani::proof]
     pub(crate) fn icmp_poll_at() {
         tx_setup!(dev, iface, cx, s, g, hop);
@@ -542,7 +540,7 @@ mod v_socket_icmp {
         };
     }
 
-    // @harness props=C09 cfg=KI4 tier=q to=900 mem=8 unwind=13 opts=nomem covers=4 funcs=icmp::Socket::process_v4;icmp::Socket::accepts_v4;icmp::Socket::recv;Icmpv4Repr::emit;PacketBuffer::enqueue;PacketBuffer::dequeue bounds=rx_metadata_slots_1..=2;_payload_ring_20_bytes;_pre-state_=_process,_recv_(each_may_be_a_no-op);_echo_request/reply_with_0..=4_data_bytes_from_any_IPv4_source
+    // @harness props=C09 cfg=KI4 tier=q to=900 mem=8 unwind=6 opts=nomem covers=4 funcs=icmp::Socket::process_v4;icmp::Socket::accepts_v4;icmp::Socket::recv;Icmpv4Repr::emit;PacketBuffer::enqueue;PacketBuffer::dequeue bounds=rx_metadata_slots_1..=2;_payload_ring_20_bytes;_pre-state_=_process,_recv_(each_may_be_a_no-op);_echo_request/reply_with_0..=4_data_bytes_from_any_IPv4_source
     #[kani::proof]
     pub(crate) fn icmp_process_recv() {
         rx_setup!(dev, iface, cx, s, g, ident);
@@ -570,7 +568,7 @@ mod v_socket_icmp {
         kani::cover!(!delivered && before == mcap, "dropped whole: metadata slots full");
     }
 
-    // @harness props=C09 cfg=KI4 tier=q to=900 mem=8 unwind=13 opts=nomem covers=3 funcs=icmp::Socket::recv_slice;icmp::Socket::recv;icmp::Socket::process_v4 bounds=rx_metadata_slots_1..=2;_payload_ring_20_bytes;_pre-state_=_process,_process_(each_may_be_a_no-op);_user_buffer_0..=12_bytes
+    // @harness props=C09 cfg=KI4 tier=q to=900 mem=8 unwind=6 opts=nomem covers=3 funcs=icmp::Socket::recv_slice;icmp::Socket::recv;icmp::Socket::process_v4 bounds=rx_metadata_slots_1..=2;_payload_ring_20_bytes;_pre-state_=_process,_process_(each_may_be_a_no-op);_user_buffer_0..=12_bytes
     #[kani::proof]
     pub(crate) fn icmp_recv_truncated() {
         rx_setup!(dev, iface, cx, s, g, ident);
@@ -607,7 +605,7 @@ mod v_socket_icmp {
         [(sp >> 8) as u8, sp as u8, (dp >> 8) as u8, dp as u8, (len >> 8) as u8, len as u8, 0, 0]
     }
 
-    // @harness props=C09 cfg=KI4 tier=q to=600 mem=8 unwind=9 opts=nomem covers=4 funcs=icmp::Socket::accepts_v4;icmp::Socket::bind;icmp::Socket::is_open;UdpRepr::parse bounds=bound_to_Ident(any),_Udp(any_port,_no/any_IPv4_address)_or_Tcp;_message_=_echo_request/reply_(any_ident)_or_DstUnreachable/TimeExceeded_quoting_an_8-byte_UDP_header_(any_ports,_any_length_field)
+    // @harness props=C09 cfg=KI4 tier=q to=600 mem=8 unwind=6 opts=nomem covers=4 funcs=icmp::Socket::accepts_v4;icmp::Socket::bind;icmp::Socket::is_open;UdpRepr::parse bounds=bound_to_Ident(any),_Udp(any_port,_no/any_IPv4_address)_or_Tcp;_message_=_echo_request/reply_(any_ident)_or_DstUnreachable/TimeExceeded_quoting_an_8-byte_UDP_header_(any_ports,_any_length_field)
     #[kani::proof]
     pub(crate) fn icmp_accepts_bind() {
         env!(dev, iface, cx);
@@ -693,7 +691,7 @@ mod v_socket_icmp {
     // quoted UDP length field normally exceeds the 8 quoted bytes.  A socket bound to the UDP port the
     // datagram was sent from must accept such an error ("each valid datagram arriving for a bound socket is
     // delivered").
-    // @harness props=C09 cfg=KI4 tier=q to=600 mem=8 unwind=9 opts=nomem covers=1 funcs=icmp::Socket::accepts_v4;UdpRepr::parse;UdpPacket::check_len bounds=socket_bound_to_Udp(any_port);_DstUnreachable_quoting_the_first_8_bytes_of_a_UDP_datagram_of_any_length_8..=65535
+    // @harness props=C09 cfg=KI4 tier=q to=600 mem=8 unwind=6 opts=nomem covers=1 funcs=icmp::Socket::accepts_v4;UdpRepr::parse;UdpPacket::check_len bounds=socket_bound_to_Udp(any_port);_DstUnreachable_quoting_the_first_8_bytes_of_a_UDP_datagram_of_any_length_8..=65535
     #[kani::proof]
     pub(crate) fn icmp_accepts_truncated_quote() {
         env!(dev, iface, cx);
@@ -802,7 +800,7 @@ mod v_socket_icmp {
         kani::cover!(acc && rd == DD, "IPv6 echo with 4 data bytes delivered");
     }
 
-    // @harness props=C09 kind=mustfail cfg=KI4 tier=q to=600 mem=8 unwind=13 opts=nomem
+    // @harness props=C09 kind=mustfail cfg=KI4 tier=q to=600 mem=8 unwind=6 opts=nomem
     #[kani::proof]
     pub(crate) fn icmp_must_fail() {
         tx_setup!(dev, iface, cx, s, g, hop);
